@@ -6,37 +6,55 @@ From Morfuse Require Import Base.Arr C18str.Model C18str.Spec C18str.ProofsLib C
 Import ListNotations.
 
 (* the common tail of the operations that store into storage they own exclusively *)
-Lemma finish_write nv s1 a v id d off bytes l' n rest' nb :
-  InvG nv s1 a (Some v) [id] -> (v < N.of_nat nv)%N ->
+Lemma finish_write nv s1 a h v id d l' n rest' nb b :
+  InvG nv s1 a h (Some v) [id] -> (v < N.of_nat nv)%N ->
   get (vars s1) v = Some id -> get (heap s1) id = Some d -> refc d = 0 ->
-  alloced d <= length (buf d) ->
-  write_at (buf d) off bytes = Some nb -> nb = l' ++ 0%N :: rest' -> nz l' -> n = length l' ->
-  Inv nv (upd s1 id (mkD (refc d) (alloced d) n nb)) (set a v l').
+  alloced d = length (buf d) -> length nb = length (buf d) ->
+  nb = l' ++ 0%N :: rest' -> n = length l' ->
+  Inv nv (upd s1 id (mkD (refc d) (alloced d) n nb)) (set a v l') (set h v b).
 Proof.
-  intros HG Hv Ev Hd Hr Hal Hw Hnb Hn Hlen.
+  intros HG Hv Ev Hd Hr Hal Hlen Hnb Hn.
   eapply P_finish; eauto.
-  split; [|exact Hlen]. exists rest'. cbn [buf alloced].
-  split; [exact Hnb|]. split; [exact Hn|]. rewrite (write_at_length _ _ _ _ Hw). exact Hal.
+  split; [|exact Hn]. exists rest'. cbn [buf alloced]. split; [exact Hnb|congruence].
 Qed.
 
-Lemma Inv_same nv s a v : Inv nv s a -> Inv nv s (set a v (get a v)).
+Lemma set_same {A} (f : arr A) v u : get (set f v (get f v)) u = get f u.
+Proof. rewrite get_set. destruct (N.eqb_spec u v) as [->|]; reflexivity. Qed.
+
+Lemma Inv_set_eq nv s a h v l b :
+  l = get a v -> b = get h v -> Inv nv s a h -> Inv nv s (set a v l) (set h v b).
+Proof. intros -> ->. apply InvG_ext; intro u; apply set_same. Qed.
+
+Lemma Inv_a_eq nv s a h v l : l = get a v -> Inv nv s a h -> Inv nv s (set a v l) h.
+Proof. intros ->. apply InvG_ext; intro u; [apply set_same|reflexivity]. Qed.
+
+Lemma Inv_h_back nv s a h v b : get h v = b -> Inv nv s a (set h v b) -> Inv nv s a h.
 Proof.
-  apply InvG_ext. intro u. rewrite get_set. destruct (N.eqb_spec u v) as [->|]; reflexivity.
+  intros <-. apply InvG_ext; intro u; [reflexivity|]. symmetry. apply set_same.
 Qed.
 
-Lemma Inv_set_eq nv s a v l : l = get a v -> Inv nv s a -> Inv nv s (set a v l).
-Proof. intros ->. apply Inv_same. Qed.
+Lemma Inv_a_back nv s a h v : Inv nv s (set a v (get a v)) h -> Inv nv s a h.
+Proof. apply InvG_ext; intro u; [|reflexivity]. symmetry. apply set_same. Qed.
+
+(* a variable that has storage may carry any flag *)
+Lemma Inv_reflag nv s a h v b :
+  Inv nv s a h -> (v < N.of_nat nv)%N -> get (vars s) v <> None -> Inv nv s a (set h v b).
+Proof.
+  intros HI Hv Hnn. destruct (P_open nv s a h v HI Hv) as [HG Hg].
+  apply Inv_a_back with (v := v). apply P_close; [exact HG|exact Hv|].
+  destruct (get (vars s) v); [exact Hg|congruence].
+Qed.
 
 (* ---- clear / operator=(const char* ) ------------------------------------------------------ *)
 
-Lemma clear_G nv s a v :
-  Inv nv s a -> (v < N.of_nat nv)%N ->
-  exists s1, clear s v = Ok s1 /\ InvG nv s1 a (Some v) [] /\ get (vars s1) v = None /\
+Lemma clear_G nv s a h v :
+  Inv nv s a h -> (v < N.of_nat nv)%N ->
+  exists s1, clear s v = Ok s1 /\ InvG nv s1 a h (Some v) [] /\ get (vars s1) v = None /\
              (forall u, u <> v -> get (vars s1) u = get (vars s) u).
 Proof.
-  intros HI Hv. destruct (P_open nv s a v HI Hv) as [HG _]. unfold clear.
+  intros HI Hv. destruct (P_open nv s a h v HI Hv) as [HG _]. unfold clear.
   destruct (get (vars s) v) as [id|] eqn:Ev; cbn [olist] in HG.
-  - destruct (P_delref _ _ _ _ _ _ HG) as [s2 [d [Hd [Hdel [HG2 [Hvars [_ _]]]]]]].
+  - destruct (P_delref _ _ _ _ _ _ _ HG) as [s2 [d [Hd [Hdel [HG2 [Hvars [_ _]]]]]]].
     rewrite Hdel. cbn [bind]. eexists. split; [reflexivity|]. split; [|split].
     + apply P_setvar. exact HG2.
     + cbn [set_var vars]. apply gss.
@@ -44,49 +62,49 @@ Proof.
   - exists s. auto.
 Qed.
 
-Lemma clear_ok nv s a v :
-  Inv nv s a -> (v < N.of_nat nv)%N ->
-  exists s', clear s v = Ok s' /\ Inv nv s' (set a v []).
+Lemma clear_ok nv s a h v :
+  Inv nv s a h -> (v < N.of_nat nv)%N ->
+  exists s', clear s v = Ok s' /\ Inv nv s' (set a v []) (set h v false).
 Proof.
-  intros HI Hv. destruct (clear_G nv s a v HI Hv) as [s1 [Hc [HG [Ev _]]]].
+  intros HI Hv. destruct (clear_G nv s a h v HI Hv) as [s1 [Hc [HG [Ev _]]]].
   exists s1. split; [exact Hc|]. apply P_close; [rewrite Ev; exact HG|exact Hv|].
-  rewrite Ev. reflexivity.
+  rewrite Ev. split; reflexivity.
 Qed.
 
-Lemma set_text_ok nv s a v t :
-  Inv nv s a -> (v < N.of_nat nv)%N -> nz t ->
-  exists s', set_text s v t = Ok s' /\ Inv nv s' (set a v t).
+Lemma set_text_ok nv s a h v t :
+  Inv nv s a h -> (v < N.of_nat nv)%N ->
+  exists s', set_text s v t = Ok s' /\ Inv nv s' (set a v t) (set h v (negb (isnil t))).
 Proof.
-  intros HI Hv Hn. destruct (clear_G nv s a v HI Hv) as [s1 [Hc [HG [Ev _]]]].
+  intros HI Hv. destruct (clear_G nv s a h v HI Hv) as [s1 [Hc [HG [Ev _]]]].
   unfold set_text. rewrite Hc. cbn [bind]. destruct t as [|c t'].
   - exists s1. split; [reflexivity|]. apply P_close; [rewrite Ev; exact HG|exact Hv|].
-    rewrite Ev. reflexivity.
+    rewrite Ev. split; reflexivity.
   - eexists. split; [reflexivity|].
     apply P_close; [|exact Hv|]; cbn [set_var vars]; rewrite gss.
     + cbn [olist]. apply P_setvar. apply P_new; [exact HG|reflexivity].
     + cbn [vgood set_var new_data heap]. eexists. rewrite gss. split; [reflexivity|].
       split; [|reflexivity]. exists []. cbn [buf alloced].
-      split; [reflexivity|]. split; [exact Hn|]. rewrite app_length. cbn. lia.
+      split; [reflexivity|]. rewrite app_length. cbn. lia.
 Qed.
 
 (* ---- operator=(const str&), copy construction, v = w.c_str() ------------------------------ *)
 
-Lemma assign_str_ok nv s a v w :
-  Inv nv s a -> (v < N.of_nat nv)%N -> (w < N.of_nat nv)%N ->
-  exists s', assign_str s v w = Ok s' /\ Inv nv s' (set a v (get a w)).
+Lemma assign_str_ok nv s a h v w :
+  Inv nv s a h -> (v < N.of_nat nv)%N -> (w < N.of_nat nv)%N ->
+  exists s', assign_str s v w = Ok s' /\ Inv nv s' (set a v (get a w)) (set h v (get h w)).
 Proof.
   intros HI Hv Hw.
-  assert (Hgw : vgood s (get (vars s) w) (get a w)) by (apply (g_vars _ _ _ _ _ HI); auto).
-  destruct (P_open nv s a v HI Hv) as [HG _].
+  assert (Hgw : vgood s (get (vars s) w) (get a w) (get h w)) by (apply (g_vars _ _ _ _ _ _ HI); auto).
+  destruct (P_open nv s a h v HI Hv) as [HG _].
   unfold assign_str.
   (* AddRef of w's storage *)
   assert (H1 : exists s1, match get (vars s) w with Some idw => add_ref s idw | None => Ok s end = Ok s1 /\
-             InvG nv s1 a (Some v) (olist (get (vars s) w) ++ olist (get (vars s) v)) /\
-             vars s1 = vars s /\ vgood s1 (get (vars s) w) (get a w) /\
+             InvG nv s1 a h (Some v) (olist (get (vars s) w) ++ olist (get (vars s) v)) /\
+             vars s1 = vars s /\ vgood s1 (get (vars s) w) (get a w) (get h w) /\
              (forall idw d, get (vars s) w = Some idw -> get (heap s1) idw = Some d -> refc d <> 0)).
   { destruct (get (vars s) w) as [idw|] eqn:Ew.
     - cbn [vgood] in Hgw. destruct Hgw as [d [Hd Hg]].
-      destruct (P_addref nv s a (Some v) _ idw d HG Hd) as [Ha HG1].
+      destruct (P_addref nv s a h (Some v) _ idw d HG Hd) as [Ha HG1].
       eexists. split; [exact Ha|]. split; [exact HG1|]. split; [reflexivity|]. split.
       + cbn [vgood upd heap]. eexists. rewrite gss. split; [reflexivity|].
         eapply good_same; [|exact Hg]. repeat split.
@@ -97,12 +115,12 @@ Proof.
   destruct H1 as [s1 [Ha [HG1 [Hvars1 [Hgw1 Hrc]]]]]. rewrite Ha. cbn [bind]. rewrite Hvars1.
   (* DelRef of v's old storage *)
   assert (H2 : exists s2, match get (vars s) v with Some idv => del_ref s1 idv | None => Ok s1 end = Ok s2 /\
-             InvG nv s2 a (Some v) (olist (get (vars s) w)) /\
-             vars s2 = vars s /\ vgood s2 (get (vars s) w) (get a w)).
+             InvG nv s2 a h (Some v) (olist (get (vars s) w)) /\
+             vars s2 = vars s /\ vgood s2 (get (vars s) w) (get a w) (get h w)).
   { destruct (get (vars s) v) as [idv|] eqn:Ev; cbn [olist] in HG1.
-    - assert (HG1' : InvG nv s1 a (Some v) (idv :: olist (get (vars s) w))).
+    - assert (HG1' : InvG nv s1 a h (Some v) (idv :: olist (get (vars s) w))).
       { eapply InvG_perm; [|exact HG1]. apply Permutation_sym. apply Permutation_cons_append. }
-      destruct (P_delref _ _ _ _ _ _ HG1') as [s2 [d [Hd [Hdel [HG2 [Hvars2 [_ [_ Hvg]]]]]]]].
+      destruct (P_delref _ _ _ _ _ _ _ HG1') as [s2 [d [Hd [Hdel [HG2 [Hvars2 [_ [_ [Hvg _]]]]]]]]].
       exists s2. split; [exact Hdel|]. split; [exact HG2|]. split; [congruence|].
       apply Hvg; [exact Hgw1|]. intro E. eapply Hrc; eauto.
     - exists s1. rewrite app_nil_r in HG1. auto. }
@@ -113,20 +131,21 @@ Proof.
   - apply (vgood_frame s2); [reflexivity|exact Hgw2].
 Qed.
 
-Lemma ctor_copy_ok nv s a v w :
-  Inv nv s a -> (v < N.of_nat nv)%N -> (w < N.of_nat nv)%N ->
-  exists s', ctor_copy s v w = Ok s' /\ Inv nv s' (if N.eqb v w then a else set a v (get a w)).
+Lemma ctor_copy_ok nv s a h v w :
+  Inv nv s a h -> (v < N.of_nat nv)%N -> (w < N.of_nat nv)%N ->
+  exists s', ctor_copy s v w = Ok s' /\
+    Inv nv s' (if N.eqb v w then a else set a v (get a w)) (if N.eqb v w then h else set h v (get h w)).
 Proof.
   intros HI Hv Hw. unfold ctor_copy. destruct (N.eqb_spec v w) as [E|Hne].
   - exists s. auto.
-  - destruct (clear_G nv s a v HI Hv) as [s1 [Hc [HG [Ev Hoth]]]].
+  - destruct (clear_G nv s a h v HI Hv) as [s1 [Hc [HG [Ev Hoth]]]].
     rewrite Hc. cbn [bind]. cbn [set_var vars]. rewrite gss.
-    assert (Hgw : vgood s1 (get (vars s1) w) (get a w)).
-    { apply (g_vars _ _ _ _ _ HG); [exact Hw|]. cbn. destruct (N.eqb_spec v w); congruence. }
+    assert (Hgw : vgood s1 (get (vars s1) w) (get a w) (get h w)).
+    { apply (g_vars _ _ _ _ _ _ HG); [exact Hw|]. cbn. destruct (N.eqb_spec v w); congruence. }
     destruct (get (vars s1) w) as [idw|] eqn:Ew.
     + cbn [vgood] in Hgw. destruct Hgw as [d [Hd Hg]].
-      assert (HG2 : InvG nv (set_var s1 v (Some idw)) a (Some v) []) by (apply P_setvar; exact HG).
-      destruct (P_addref nv _ a (Some v) [] idw d HG2 Hd) as [Ha HG3].
+      assert (HG2 : InvG nv (set_var s1 v (Some idw)) a h (Some v) []) by (apply P_setvar; exact HG).
+      destruct (P_addref nv _ a h (Some v) [] idw d HG2 Hd) as [Ha HG3].
       rewrite Ha. eexists. split; [reflexivity|].
       apply P_close; [|exact Hv|]; cbn [upd set_var vars]; rewrite gss.
       * exact HG3.
@@ -138,149 +157,222 @@ Proof.
       * exact Hgw.
 Qed.
 
-Lemma assign_cstr_ok nv s a v w :
-  Inv nv s a -> (v < N.of_nat nv)%N -> (w < N.of_nat nv)%N ->
-  exists s', assign_cstr s v w = Ok s' /\ Inv nv s' (set a v (clit (get a w))).
+Lemma assign_cstr_ok nv s a h v w :
+  Inv nv s a h -> (v < N.of_nat nv)%N -> (w < N.of_nat nv)%N -> nz (get a w) ->
+  exists s', assign_cstr s v w = Ok s' /\
+    Inv nv s' (set a v (clit (get a w))) (set h v (negb (isnil (clit (get a w))))).
 Proof.
-  intros HI Hv Hw.
-  assert (Hgw : vgood s (get (vars s) w) (get a w)) by (apply (g_vars _ _ _ _ _ HI); auto).
-  assert (Hgv : vgood s (get (vars s) v) (get a v)) by (apply (g_vars _ _ _ _ _ HI); auto).
-  rewrite (clit_nz _ (vgood_nz _ _ _ Hgw)).
+  intros HI Hv Hw Hnz.
+  assert (Hgw : vgood s (get (vars s) w) (get a w) (get h w)) by (apply (g_vars _ _ _ _ _ _ HI); auto).
+  assert (Hgv : vgood s (get (vars s) v) (get a v) (get h v)) by (apply (g_vars _ _ _ _ _ _ HI); auto).
   unfold assign_cstr. destruct (get (vars s) w) as [idw|] eqn:Ew.
   - cbn [vgood] in Hgw. destruct Hgw as [dw [Hdw Hg]].
     assert (Hgo : exists s', (do dw0 <- deref s idw; do t <- ov (cstr (buf dw0)); set_text s v t) = Ok s' /\
-                             Inv nv s' (set a v (get a w))).
+                    Inv nv s' (set a v (clit (get a w))) (set h v (negb (isnil (clit (get a w)))))).
     { unfold deref. rewrite Hdw. cbn [bind]. rewrite (good_text _ _ Hg). cbn [ov bind].
-      apply set_text_ok; auto. eapply good_nz; eauto. }
+      apply set_text_ok; auto. }
     destruct (get (vars s) v) as [idv|] eqn:Ev; [|exact Hgo].
     destruct (N.eqb_spec idv idw) as [E|Hne]; [|exact Hgo].
     subst idv. exists s. split; [reflexivity|].
     cbn [vgood] in Hgv. destruct Hgv as [dv [Hdv Hg']].
-    apply Inv_set_eq; [|exact HI]. rewrite Hdw in Hdv. inversion Hdv; subst dv.
-    eapply good_unique; eauto.
-  - cbn [vgood] in Hgw. rewrite Hgw. apply set_text_ok; auto. apply nz_nil.
+    rewrite Hdw in Hdv. inversion Hdv; subst dv.
+    rewrite (clit_nz _ Hnz). rewrite (good_unique _ _ _ Hg Hg').
+    apply Inv_a_eq; [reflexivity|]. apply Inv_reflag; [exact HI|exact Hv|congruence].
+  - cbn [vgood] in Hgw. destruct Hgw as [Hl _]. rewrite Hl. cbn [clit].
+    apply (set_text_ok nv s a h v []); auto.
 Qed.
 
 (* ---- the appends ------------------------------------------------------------------------- *)
 
-Lemma append_lit_ok nv s a v lit :
-  Inv nv s a -> (v < N.of_nat nv)%N -> (isnil (get a v) && isnil (clit lit))%bool = false ->
-  exists s', append_lit s v lit = Ok s' /\ Inv nv s' (set a v (get a v ++ clit lit)).
+Lemma append_lit_ok nv s a h v lit :
+  Inv nv s a h -> (v < N.of_nat nv)%N -> nz (get a v) ->
+  exists s', append_lit s v lit = Ok s' /\ Inv nv s' (set a v (get a v ++ clit lit)) (set h v true).
 Proof.
-  intros HI Hv Hpre. destruct (P_open nv s a v HI Hv) as [HG Hg].
-  unfold append_lit. rewrite (length_of_good _ _ _ Hg). cbn [bind].
+  intros HI Hv Hnz. destruct (P_open nv s a h v HI Hv) as [HG Hg].
+  unfold append_lit. rewrite (length_of_good _ _ _ _ Hg). cbn [bind].
   set (l := get a v) in *. set (t := clit lit) in *.
-  destruct (ensure_alloced_ok nv s a v l (length l + length t + 1) HG Hg ltac:(lia))
-    as [s1 [He [HG1 Hpost]]].
-  rewrite He. cbn [bind].
-  destruct (get (vars s1) v) as [id|] eqn:Ev1.
-  - destruct Hpost as [d [Hd [Hc [Hr Hamt]]]]. cbn [olist] in HG1.
-    rewrite (with_data_some s1 v id d _ Ev1 Hd).
-    rewrite (content_text _ _ Hc). cbn [ov bind].
-    destruct Hc as [rest [Hb [Hn Hal]]].
-    assert (Hw : write_at (buf d) (length l) (t ++ [0%N]) =
-                 Some (l ++ (t ++ [0%N]) ++ skipn (length (t ++ [0%N])) (0%N :: rest))).
-    { rewrite Hb. apply write_at_app. rewrite Hb in Hamt. rewrite !app_length in *. cbn [length] in *. lia. }
-    rewrite Hw. cbn [ov bind]. eexists. split; [reflexivity|].
-    eapply finish_write with (rest' := skipn (length (t ++ [0%N])) (0%N :: rest)); eauto.
-    + rewrite <- !app_assoc. reflexivity.
-    + apply nz_app; [exact Hn|apply nz_clit].
-    + now rewrite app_length.
-  - destruct Hpost as [Hl Hamt]. exfalso.
-    assert (Ht : length t = 0) by lia. destruct t; [|discriminate]. rewrite Hl in Hpre. discriminate.
+  rewrite <- (app_nil_r (olist _)) in HG.
+  destruct (ensure_alloced_ok nv s a h v l _ (length l + length t + 1) [] HG Hg ltac:(lia))
+    as [s1 [id [d [He [HG1 [[Ev1 [Hd [Hr [Hal [Hamt [Hlen Hb]]]]]] _]]]]]].
+  rewrite He. cbn [bind]. rewrite (with_data_some s1 v id d _ Ev1 Hd).
+  destruct (Hb Hnz) as [rest Hbuf].
+  assert (Hcs : cstr (buf d) = Some l) by (rewrite Hbuf; now apply cstr_app).
+  rewrite Hcs. cbn [ov bind].
+  assert (Hw : write_at (buf d) (length l) (t ++ [0%N]) =
+               Some (l ++ (t ++ [0%N]) ++ skipn (length (t ++ [0%N])) (0%N :: rest))).
+  { rewrite Hbuf. apply write_at_app. rewrite Hbuf in Hamt. rewrite !app_length in *. cbn [length] in *. lia. }
+  rewrite Hw. cbn [ov bind]. eexists. split; [reflexivity|].
+  eapply finish_write with (rest' := skipn (length (t ++ [0%N])) (0%N :: rest)); eauto.
+  - exact (write_at_length _ _ _ _ Hw).
+  - rewrite <- !app_assoc. reflexivity.
+  - now rewrite app_length.
 Qed.
 
-Lemma append_char_ok nv s a v c :
-  Inv nv s a -> (v < N.of_nat nv)%N ->
+Lemma append_char_ok nv s a h v c :
+  Inv nv s a h -> (v < N.of_nat nv)%N -> nz (get a v) ->
   exists s', append_char s v c = Ok s' /\
-             Inv nv s' (if N.eqb c 0 then a else set a v (get a v ++ [c])).
+             Inv nv s' (if N.eqb c 0 then a else set a v (get a v ++ [c]))
+                       (if N.eqb c 0 then h else set h v true).
 Proof.
-  intros HI Hv. unfold append_char. destruct (N.eqb_spec c 0) as [E|Hc0].
+  intros HI Hv Hnz. unfold append_char. destruct (N.eqb_spec c 0) as [E|Hc0].
   - exists s. auto.
-  - destruct (P_open nv s a v HI Hv) as [HG Hg].
-    rewrite (length_of_good _ _ _ Hg). cbn [bind]. set (l := get a v) in *.
-    destruct (ensure_alloced_ok nv s a v l (length l + 1 + 1) HG Hg ltac:(lia))
-      as [s1 [He [HG1 Hpost]]].
-    rewrite He. cbn [bind].
-    destruct (get (vars s1) v) as [id|] eqn:Ev1; [|destruct Hpost; lia].
-    destruct Hpost as [d [Hd [Hc [Hr Hamt]]]]. cbn [olist] in HG1.
-    rewrite (with_data_some s1 v id d _ Ev1 Hd).
-    destruct Hc as [rest [Hb [Hn Hal]]].
+  - destruct (P_open nv s a h v HI Hv) as [HG Hg].
+    rewrite (length_of_good _ _ _ _ Hg). cbn [bind]. set (l := get a v) in *.
+    rewrite <- (app_nil_r (olist _)) in HG.
+    destruct (ensure_alloced_ok nv s a h v l _ (length l + 1 + 1) [] HG Hg ltac:(lia))
+      as [s1 [id [d [He [HG1 [[Ev1 [Hd [Hr [Hal [Hamt [Hlen Hb]]]]]] _]]]]]].
+    rewrite He. cbn [bind]. rewrite (with_data_some s1 v id d _ Ev1 Hd).
+    destruct (Hb Hnz) as [rest Hbuf].
     assert (Hw : write_at (buf d) (length l) [c; 0%N] =
                  Some (l ++ [c; 0%N] ++ skipn 2 (0%N :: rest))).
-    { rewrite Hb. apply (write_at_app l (0%N :: rest) [c; 0%N]).
-      rewrite Hb in Hamt. rewrite !app_length in *. cbn [length] in *. lia. }
+    { rewrite Hbuf. apply (write_at_app l (0%N :: rest) [c; 0%N]).
+      rewrite Hbuf in Hamt. rewrite !app_length in *. cbn [length] in *. lia. }
     rewrite Hw. cbn [ov bind]. eexists. split; [reflexivity|].
     eapply finish_write with (rest' := skipn 2 (0%N :: rest)); eauto.
+    + exact (write_at_length _ _ _ _ Hw).
     + rewrite <- !app_assoc. reflexivity.
-    + apply nz_app; [exact Hn|]. constructor; [exact Hc0|constructor].
     + rewrite app_length. cbn. lia.
 Qed.
 
-Lemma append_str_ok nv s a v w :
-  Inv nv s a -> (v < N.of_nat nv)%N -> (w < N.of_nat nv)%N -> v <> w ->
-  (isnil (get a v) && isnil (get a w))%bool = false ->
-  exists s', append_str s v w = Ok s' /\ Inv nv s' (set a v (get a v ++ get a w)).
+(* the body of append(const str&): [src] yields storage (or null) whose text is t *)
+Lemma append_src_ok nv s a h v E lw src t l b :
+  InvG nv s a h (Some v) (olist (get (vars s) v) ++ E) ->
+  vgood s (get (vars s) v) l b -> nz l -> nz t -> lw = length t ->
+  (forall s1 id, InvG nv s1 a h (Some v) (id :: E) -> keeps s s1 E ->
+                 exists bt, vgood s1 (src s1) t bt) ->
+  (forall s1 id d, InvG nv s1 a h (Some v) (id :: E) -> get (heap s1) id = Some d -> refc d = 0 ->
+                   src s1 <> Some id) ->
+  exists s' id d', append_src s v lw src = Ok s' /\ InvG nv s' a h (Some v) (id :: E) /\
+    get (vars s') v = Some id /\ get (heap s') id = Some d' /\ good d' (l ++ t) /\ refc d' = 0 /\
+    (forall j dj, j <> id -> In j E -> get (heap s) j = Some dj ->
+                  exists dj', get (heap s') j = Some dj' /\ same_text dj dj').
 Proof.
-  intros HI Hv Hw Hne Hpre.
-  assert (Hgw : vgood s (get (vars s) w) (get a w)) by (apply (g_vars _ _ _ _ _ HI); auto).
-  destruct (P_open nv s a v HI Hv) as [HG Hg].
-  unfold append_str. rewrite (length_of_good _ _ _ Hg), (length_of_good _ _ _ Hgw). cbn [bind].
-  set (l := get a v) in *. set (t := get a w) in *.
-  destruct (ensure_alloced_ok nv s a v l (length l + length t + 1) HG Hg ltac:(lia))
-    as [s1 [He [HG1 Hpost]]].
-  rewrite He. cbn [bind].
-  assert (Hxw : excluded (Some v) w = false) by (cbn; destruct (N.eqb_spec v w); congruence).
-  assert (Hgw1 : vgood s1 (get (vars s1) w) t) by (apply (g_vars _ _ _ _ _ HG1); auto).
-  destruct (get (vars s1) v) as [id|] eqn:Ev1.
-  - destruct Hpost as [d [Hd [Hc [Hr Hamt]]]]. cbn [olist] in HG1.
-    rewrite (with_data_some s1 v id d _ Ev1 Hd).
-    rewrite (content_text _ _ Hc). cbn [ov bind].
-    destruct Hc as [rest [Hb [Hn Hal]]].
-    assert (Hw' : write_at (buf d) (length l) (t ++ [0%N]) =
-                 Some (l ++ (t ++ [0%N]) ++ skipn (length (t ++ [0%N])) (0%N :: rest))).
-    { rewrite Hb. apply write_at_app. rewrite Hb in Hamt. rewrite !app_length in *. cbn [length] in *. lia. }
-    assert (Hfin : Inv nv (upd s1 id (mkD (refc d) (alloced d) (length l + length t)
-                     (l ++ (t ++ [0%N]) ++ skipn (length (t ++ [0%N])) (0%N :: rest))))
-                     (set a v (l ++ t))).
-    { eapply finish_write with (rest' := skipn (length (t ++ [0%N])) (0%N :: rest)); eauto.
-      - rewrite <- !app_assoc. reflexivity.
-      - apply nz_app; [exact Hn|]. eapply vgood_nz; eauto.
-      - now rewrite app_length. }
-    destruct (get (vars s1) w) as [idw|] eqn:Ew1.
-    + assert (Hidw : idw <> id).
-      { intro E. subst idw.
-        apply (sole_owner nv s1 a (Some v) [id] id d w HG1 Hd Hr ltac:(now left) Hw Hxw). exact Ew1. }
-      destruct (N.eqb_spec idw id) as [E|_]; [contradiction|].
-      cbn [vgood] in Hgw1. destruct Hgw1 as [dw [Hdw Hgdw]].
-      unfold deref. rewrite Hdw. cbn [bind]. rewrite (good_text _ _ Hgdw). cbn [ov bind].
-      rewrite Hw'. cbn [ov bind]. eexists. split; [reflexivity|exact Hfin].
-    + cbn [vgood] in Hgw1. rewrite Hgw1 in *. cbn [app] in Hw'. rewrite Hw'. cbn [ov bind].
-      eexists. split; [reflexivity|exact Hfin].
-  - destruct Hpost as [Hl Hamt]. exfalso.
-    assert (Ht : length t = 0) by lia. destruct t; [|discriminate]. rewrite Hl in Hpre. discriminate.
+  intros HG Hg Hnz Hnt Hlw Hsrc Hnes.
+  unfold append_src. rewrite (length_of_good _ _ _ _ Hg). cbn [bind]. subst lw.
+  destruct (ensure_alloced_ok nv s a h v l _ (length l + length t + 1) E HG Hg ltac:(lia))
+    as [s1 [id [d [He [HG1 [[Ev1 [Hd [Hr [Hal [Hamt [Hlen Hb]]]]]] Hkeep]]]]]].
+  rewrite He. cbn [bind]. rewrite (with_data_some s1 v id d _ Ev1 Hd).
+  destruct (Hb Hnz) as [rest Hbuf].
+  assert (Hcs : cstr (buf d) = Some l) by (rewrite Hbuf; now apply cstr_app).
+  rewrite Hcs. cbn [ov bind].
+  assert (Hw : write_at (buf d) (length l) (t ++ [0%N]) =
+               Some (l ++ (t ++ [0%N]) ++ skipn (length (t ++ [0%N])) (0%N :: rest))).
+  { rewrite Hbuf. apply write_at_app. rewrite Hbuf in Hamt. rewrite !app_length in *. cbn [length] in *. lia. }
+  set (nb := l ++ (t ++ [0%N]) ++ skipn (length (t ++ [0%N])) (0%N :: rest)) in *.
+  set (D' := mkD (refc d) (alloced d) (length l + length t) nb).
+  assert (Hfin : InvG nv (upd s1 id D') a h (Some v) (id :: E) /\ get (vars (upd s1 id D')) v = Some id /\
+                 get (heap (upd s1 id D')) id = Some D' /\ good D' (l ++ t) /\ refc D' = 0).
+  { split; [apply P_upd with (d := d); auto; now left|]. split; [exact Ev1|].
+    split; [cbn [upd heap]; apply gss|]. split; [|exact Hr].
+    split; [|cbn [D' dlen]; now rewrite app_length].
+    exists (skipn (length (t ++ [0%N])) (0%N :: rest)). cbn [D' buf alloced].
+    split; [unfold nb; rewrite <- !app_assoc; reflexivity|].
+    rewrite Hal. symmetry. exact (write_at_length _ _ _ _ Hw). }
+  assert (Hk' : forall j dj, j <> id -> In j E -> get (heap s) j = Some dj ->
+                  exists dj', get (heap (upd s1 id D')) j = Some dj' /\ same_text dj dj').
+  { intros j dj Hj Hin Hdj. destruct (Hkeep j dj Hin Hdj) as [dj' [H1 H2]].
+    exists dj'. split; [|exact H2]. cbn [upd heap]. rewrite gso by exact Hj. exact H1. }
+  destruct (Hsrc s1 id HG1 Hkeep) as [bt Hgs].
+  pose proof (Hnes s1 id d HG1 Hd Hr) as Hneq.
+  destruct (src s1) as [idw|] eqn:Esrc.
+  - destruct (N.eqb_spec idw id) as [E'|_]; [congruence|].
+    cbn [vgood] in Hgs. destruct Hgs as [dw [Hdw Hgdw]].
+    unfold deref. rewrite Hdw. cbn [bind]. rewrite (good_text _ _ Hgdw). cbn [ov bind].
+    rewrite (clit_nz _ Hnt). rewrite Hw. cbn [ov bind].
+    exists (upd s1 id D'), id, D'. split; [reflexivity|]. destruct Hfin as [F1 [F2 [F3 [F4 F5]]]].
+    split; [exact F1|split; [exact F2|split; [exact F3|split; [exact F4|split; [exact F5|exact Hk']]]]].
+  - cbn [vgood] in Hgs. destruct Hgs as [Ht _]. subst t. cbn [app] in Hw. rewrite Hw. cbn [ov bind].
+    exists (upd s1 id D'), id, D'. split; [reflexivity|]. destruct Hfin as [F1 [F2 [F3 [F4 F5]]]].
+    split; [exact F1|split; [exact F2|split; [exact F3|split; [exact F4|split; [exact F5|exact Hk']]]]].
+Qed.
+
+Lemma append_str_ok nv s a h v w :
+  Inv nv s a h -> (v < N.of_nat nv)%N -> (w < N.of_nat nv)%N -> nz (get a v) -> nz (get a w) ->
+  exists s', append_str s v w = Ok s' /\ Inv nv s' (set a v (get a v ++ get a w)) (set h v true).
+Proof.
+  intros HI Hv Hw Hnv Hnw.
+  destruct (P_open nv s a h v HI Hv) as [HG Hg].
+  unfold append_str. destruct (N.eqb_spec v w) as [E|Hne].
+  - (* a.append(a): a temporary copy holds a second reference *)
+    subst w. destruct (get (vars s) v) as [p|] eqn:Ep.
+    + cbn [vgood] in Hg. destruct Hg as [d0 [Hd0 Hg0]]. cbn [olist] in HG.
+      destruct (P_addref nv s a h (Some v) [p] p d0 HG Hd0) as [Ha HG0].
+      rewrite Ha. cbn [bind].
+      set (d1 := mkD (S (refc d0)) (alloced d0) (dlen d0) (buf d0)) in *.
+      set (s0 := upd s p d1) in *.
+      assert (Hp0 : get (heap s0) p = Some d1) by (unfold s0; cbn [upd heap]; apply gss).
+      assert (Hg1 : good d1 (get a v)) by (eapply good_same; [|exact Hg0]; repeat split).
+      unfold deref at 1. rewrite Hp0. cbn [bind dlen d1].
+      assert (Hv0 : get (vars s0) v = Some p) by exact Ep.
+      assert (HG0' : InvG nv s0 a h (Some v) (olist (get (vars s0) v) ++ [p])) by (rewrite Hv0; exact HG0).
+      assert (Hgv0 : vgood s0 (get (vars s0) v) (get a v) true)
+        by (rewrite Hv0; cbn [vgood]; exists d1; auto).
+      destruct (append_src_ok nv s0 a h v [p] (dlen d0) (fun _ => Some p) (get a v) (get a v) true
+                  HG0' Hgv0 Hnv Hnv) as [s1 [id [d' [Happ [HG1 [Ev1 [Hd' [Hgd' [Hr' Hk]]]]]]]]].
+      * apply Hg0.
+      * intros s1 id _ Hkeep. exists true. cbn [vgood].
+        destruct (Hkeep p d1 ltac:(now left) Hp0) as [dj' [H1 H2]].
+        exists dj'. split; [exact H1|]. eapply good_same; eauto.
+      * intros s1 id d HGs Hds Hrs E. inversion E; subst id.
+        pose proof (g_cnt _ _ _ _ _ _ HGs p d Hds) as Hc. cbn [occ] in Hc.
+        rewrite N.eqb_refl in Hc. lia.
+      * rewrite Happ. cbn [bind].
+        assert (Hpid : p <> id).
+        { intro E. subst id. pose proof (g_cnt _ _ _ _ _ _ HG1 p d' Hd') as Hc. cbn [occ] in Hc.
+          rewrite N.eqb_refl in Hc. lia. }
+        assert (HG1' : InvG nv s1 a h (Some v) [p; id])
+          by (apply InvG_perm with (e := [id; p]); [apply perm_swap|exact HG1]).
+        destruct (P_delref _ _ _ _ _ _ _ HG1') as [s2 [d2 [Hd2 [Hdel [HG2 [Hvars2 [_ [Hfr2 _]]]]]]]].
+        rewrite Hdel. eexists. split; [reflexivity|].
+        apply P_close; [|exact Hv|]; rewrite Hvars2, Ev1.
+        -- exact HG2.
+        -- cbn [vgood]. exists d'. split; [|exact Hgd']. rewrite Hfr2 by (intro E; apply Hpid; now symmetry). exact Hd'.
+    + cbn [vgood] in Hg. destruct Hg as [Hl Hb]. cbn [bind olist] in *.
+      assert (HG' : InvG nv s a h (Some v) (olist (get (vars s) v) ++ [])) by (rewrite Ep; exact HG).
+      assert (Hgv : vgood s (get (vars s) v) (get a v) (get h v)) by (rewrite Ep; split; auto).
+      destruct (append_src_ok nv s a h v [] 0 (fun _ => None) [] (get a v) (get h v)
+                  HG' Hgv Hnv nz_nil eq_refl) as [s1 [id [d' [Happ [HG1 [Ev1 [Hd' [Hgd' [Hr' _]]]]]]]]].
+      * intros s1 id _ _. exists false. split; reflexivity.
+      * intros s1 id d _ _ _. discriminate.
+      * rewrite Happ. cbn [bind]. exists s1. split; [reflexivity|].
+        rewrite Hl in *. cbn [app] in *.
+        apply P_close; [rewrite Ev1; exact HG1|exact Hv|]. rewrite Ev1. cbn [vgood]. exists d'. auto.
+  - assert (Hgw : vgood s (get (vars s) w) (get a w) (get h w)) by (apply (g_vars _ _ _ _ _ _ HI); auto).
+    rewrite (length_of_good _ _ _ _ Hgw). cbn [bind].
+    assert (Hxw : excluded (Some v) w = false) by (cbn; destruct (N.eqb_spec v w); congruence).
+    rewrite <- (app_nil_r (olist _)) in HG.
+    destruct (append_src_ok nv s a h v [] (length (get a w)) (fun s1 => get (vars s1) w)
+                (get a w) (get a v) (get h v) HG Hg Hnv Hnw eq_refl)
+      as [s1 [id [d' [Happ [HG1 [Ev1 [Hd' [Hgd' [Hr' _]]]]]]]]].
+    + intros s1 id HGs _. exists (get h w). apply (g_vars _ _ _ _ _ _ HGs); auto.
+    + intros s1 id d HGs Hds Hrs.
+      apply (sole_owner nv s1 a h (Some v) [id] id d w HGs Hds Hrs ltac:(now left) Hw Hxw).
+    + exists s1. split; [exact Happ|].
+      apply P_close; [rewrite Ev1; exact HG1|exact Hv|]. rewrite Ev1. cbn [vgood]. exists d'. auto.
 Qed.
 
 (* ---- operations that call EnsureDataWritable --------------------------------------------- *)
 
-Lemma set_char_ok nv s a v i c :
-  Inv nv s a -> (v < N.of_nat nv)%N -> get a v <> [] -> c <> 0%N ->
-  exists s', set_char s v i c = Ok s' /\ Inv nv s' (set a v (set_nth (get a v) i c)).
+Lemma set_char_ok nv s a h v i c :
+  Inv nv s a h -> (v < N.of_nat nv)%N -> get h v = true -> nz (get a v) -> c <> 0%N ->
+  exists s', set_char s v i c = Ok s' /\ Inv nv s' (set a v (set_nth (get a v) i c)) h.
 Proof.
-  intros HI Hv Hnn Hc.
-  destruct (open_writable nv s a v HI Hv Hnn) as [s1 [id [d [He [HG [Ev [Hd [Hg Hr]]]]]]]].
+  intros HI Hv Hh Hnz Hc.
+  destruct (open_writable nv s a h v HI Hv Hh Hnz) as [s1 [id [d [He [HG [Ev [Hd [Hg Hr]]]]]]]].
   unfold set_char. rewrite He. cbn [bind]. rewrite (with_data_some s1 v id d _ Ev Hd).
-  destruct Hg as [[rest [Hb [Hn Hal]]] Hlen]. rewrite Hlen.
+  destruct Hg as [[rest [Hb Hal]] Hlen]. rewrite Hlen.
   destruct (Nat.leb_spec (length (get a v)) i) as [Hge|Hlt].
   - exists s1. split; [reflexivity|]. rewrite set_nth_oob by exact Hge.
+    apply Inv_h_back with (v := v) (b := true); [exact Hh|].
     apply P_close; [rewrite Ev; exact HG|exact Hv|]. rewrite Ev. cbn [vgood].
     exists d. split; [exact Hd|]. split; [exists rest; auto|exact Hlen].
   - assert (Hw : write_at (buf d) i [c] = Some (set_nth (get a v) i c ++ 0%N :: rest))
       by (rewrite Hb; now apply write_at_set_nth).
     rewrite Hw. cbn [ov bind]. eexists. split; [reflexivity|].
+    apply Inv_h_back with (v := v) (b := true); [exact Hh|].
     eapply finish_write; eauto.
-    + now apply nz_set_nth.
-    + rewrite set_nth_length. reflexivity.
+    + exact (write_at_length _ _ _ _ Hw).
+    + now rewrite set_nth_length.
 Qed.
 
 Lemma write_zero l q n : n < length l ->
@@ -290,106 +382,197 @@ Proof.
   rewrite <- app_assoc. reflexivity.
 Qed.
 
-Lemma cap_length_ok nv s a v n :
-  Inv nv s a -> (v < N.of_nat nv)%N ->
-  exists s', cap_length s v n = Ok s' /\ Inv nv s' (set a v (firstn n (get a v))).
+Lemma cap_length_ok nv s a h v n :
+  Inv nv s a h -> (v < N.of_nat nv)%N -> nz (get a v) ->
+  exists s', cap_length s v n = Ok s' /\ Inv nv s' (set a v (firstn n (get a v))) h.
 Proof.
-  intros HI Hv. destruct (P_open nv s a v HI Hv) as [_ Hg0].
-  unfold cap_length. rewrite (length_of_good _ _ _ Hg0). cbn [bind].
+  intros HI Hv Hnz. destruct (P_open nv s a h v HI Hv) as [_ Hg0].
+  unfold cap_length. rewrite (length_of_good _ _ _ _ Hg0). cbn [bind].
   destruct (Nat.leb_spec (length (get a v)) n) as [Hle|Hgt].
-  - exists s. split; [reflexivity|]. apply Inv_set_eq; [|exact HI]. now apply firstn_all2.
+  - exists s. split; [reflexivity|]. apply Inv_a_eq; [|exact HI]. now apply firstn_all2.
   - assert (Hnn : get a v <> []) by (intro E; rewrite E in Hgt; cbn in Hgt; lia).
-    destruct (open_writable nv s a v HI Hv Hnn) as [s1 [id [d [He [HG [Ev [Hd [Hg Hr]]]]]]]].
+    destruct (open_writable_nonempty nv s a h v HI Hv Hnn Hnz) as [s1 [id [d [He [HG [Ev [Hd [Hg Hr]]]]]]]].
     rewrite He. cbn [bind]. rewrite (with_data_some s1 v id d _ Ev Hd).
-    destruct Hg as [[rest [Hb [Hn Hal]]] Hlen].
+    destruct Hg as [[rest [Hb Hal]] Hlen].
     assert (Hw : write_at (buf d) n [0%N] =
                  Some (firstn n (get a v) ++ 0%N :: (skipn (S n) (get a v) ++ 0%N :: rest)))
       by (rewrite Hb; now apply write_zero).
     rewrite Hw. cbn [ov bind]. eexists. split; [reflexivity|].
+    apply Inv_h_back with (v := v) (b := get h v); [reflexivity|].
     eapply finish_write; eauto.
-    + now apply nz_firstn.
+    + exact (write_at_length _ _ _ _ Hw).
     + rewrite firstn_length. lia.
 Qed.
 
-Lemma minus_ok nv s a v c :
-  Inv nv s a -> (v < N.of_nat nv)%N ->
+Lemma minus_ok nv s a h v c :
+  Inv nv s a h -> (v < N.of_nat nv)%N -> nz (get a v) ->
   exists s', minus s v c = Ok s' /\
     Inv nv s' (if Z.leb c 0 then a
-               else set a v (firstn (length (get a v) - Z.to_nat c) (get a v))).
+               else set a v (firstn (length (get a v) - Z.to_nat c) (get a v))) h.
 Proof.
-  intros HI Hv. destruct (P_open nv s a v HI Hv) as [_ Hg0].
+  intros HI Hv Hnz. destruct (P_open nv s a h v HI Hv) as [_ Hg0].
   unfold minus. destruct (get (vars s) v) as [id0|] eqn:Ev0.
   - cbn [vgood] in Hg0. destruct Hg0 as [d0 [Hd0 Hg0]]. unfold deref at 1. rewrite Hd0. cbn [bind].
     assert (Hl0 : dlen d0 = length (get a v)) by apply Hg0.
     destruct (Z.leb_spec c 0) as [Hc|Hc].
     + rewrite orb_true_r. exists s. auto.
-    + rewrite orb_false_r. destruct (Nat.eqb_spec (dlen d0) 0) as [Hz|Hnz].
-      * exists s. split; [reflexivity|]. apply Inv_set_eq; [|exact HI].
+    + rewrite orb_false_r. destruct (Nat.eqb_spec (dlen d0) 0) as [Hz|Hnz0].
+      * exists s. split; [reflexivity|]. apply Inv_a_eq; [|exact HI].
         rewrite Hl0 in Hz. destruct (get a v); [now rewrite firstn_nil|discriminate].
       * assert (Hnn : get a v <> []) by (intro E; rewrite E in Hl0; cbn in Hl0; lia).
-        destruct (open_writable nv s a v HI Hv Hnn) as [s1 [id [d [He [HG [Ev [Hd [Hg Hr]]]]]]]].
+        destruct (open_writable_nonempty nv s a h v HI Hv Hnn Hnz) as [s1 [id [d [He [HG [Ev [Hd [Hg Hr]]]]]]]].
         rewrite He. cbn [bind]. rewrite (with_data_some s1 v id d _ Ev Hd).
-        destruct Hg as [[rest [Hb [Hn Hal]]] Hlen]. rewrite Hlen.
+        destruct Hg as [[rest [Hb Hal]] Hlen]. rewrite Hlen.
         set (l := get a v) in *. set (cn := Z.to_nat c).
         assert (Hcn : 1 <= cn) by (unfold cn; lia).
         assert (Hnl : (if Nat.leb (length l) cn then 0 else length l - cn) = length l - cn)
           by (destruct (Nat.leb_spec (length l) cn); lia).
         rewrite Hnl.
-        assert (Hl1 : 1 <= length l) by (apply nonnil_length; exact Hnn).
+        assert (Hl1 : 1 <= length l) by (destruct l; [congruence|cbn; lia]).
         assert (Hw : write_at (buf d) (length l - cn) [0%N] =
                      Some (firstn (length l - cn) l ++ 0%N :: (skipn (S (length l - cn)) l ++ 0%N :: rest)))
           by (rewrite Hb; apply write_zero; lia).
         rewrite Hw. cbn [ov bind]. eexists. split; [reflexivity|].
+        apply Inv_h_back with (v := v) (b := get h v); [reflexivity|].
         eapply finish_write; eauto.
-        -- now apply nz_firstn.
+        -- exact (write_at_length _ _ _ _ Hw).
         -- rewrite firstn_length. lia.
-  - cbn [vgood] in Hg0. exists s. split; [reflexivity|].
-    destruct (Z.leb c 0); [exact HI|]. apply Inv_set_eq; [|exact HI]. rewrite Hg0. now rewrite firstn_nil.
+  - cbn [vgood] in Hg0. destruct Hg0 as [Hl _]. exists s. split; [reflexivity|].
+    destruct (Z.leb c 0); [exact HI|]. apply Inv_a_eq; [|exact HI]. rewrite Hl. now rewrite firstn_nil.
 Qed.
 
-Lemma map_case_ok nv s a v f :
-  (forall c, c <> 0%N -> f c <> 0%N) ->
-  Inv nv s a -> (v < N.of_nat nv)%N -> get a v <> [] ->
-  exists s', map_case f s v = Ok s' /\ Inv nv s' (set a v (map f (get a v))).
+Lemma map_case_ok nv s a h v f :
+  Inv nv s a h -> (v < N.of_nat nv)%N -> get h v = true -> nz (get a v) ->
+  exists s', map_case f s v = Ok s' /\ Inv nv s' (set a v (map f (get a v))) h.
 Proof.
-  intros Hf HI Hv Hnn.
-  destruct (open_writable nv s a v HI Hv Hnn) as [s1 [id [d [He [HG [Ev [Hd [Hg Hr]]]]]]]].
+  intros HI Hv Hh Hnz.
+  destruct (open_writable nv s a h v HI Hv Hh Hnz) as [s1 [id [d [He [HG [Ev [Hd [Hg Hr]]]]]]]].
   unfold map_case. rewrite He. cbn [bind]. rewrite (with_data_some s1 v id d _ Ev Hd).
-  rewrite (good_text _ _ Hg). cbn [ov bind].
-  destruct Hg as [[rest [Hb [Hn Hal]]] Hlen]. set (l := get a v) in *.
+  rewrite (good_text _ _ Hg). cbn [ov bind]. rewrite (clit_nz _ Hnz).
+  destruct Hg as [[rest [Hb Hal]] Hlen]. set (l := get a v) in *.
   assert (Hw : write_at (buf d) 0 (map f l) = Some (map f l ++ 0%N :: rest)).
   { rewrite write_at_0.
     - rewrite Hb. rewrite map_length. rewrite skipn_app, skipn_all, Nat.sub_diag. reflexivity.
     - rewrite Hb, map_length, app_length. lia. }
   rewrite Hw. cbn [ov bind]. eexists. split; [reflexivity|].
+  apply Inv_h_back with (v := v) (b := true); [exact Hh|].
   eapply finish_write; eauto.
-  - now apply nz_map.
-  - rewrite map_length. exact Hlen.
+  - exact (write_at_length _ _ _ _ Hw).
+  - now rewrite map_length.
+Qed.
+
+(* ---- resize / reserve / assign(text, n) -------------------------------------------------- *)
+
+Lemma resize_ok nv s a h v n :
+  Inv nv s a h -> (v < N.of_nat nv)%N -> nz (get a v) ->
+  exists s', resize s v n = Ok s' /\
+    Inv nv s' (set a v (if Nat.leb n (length (get a v)) then firstn n (get a v)
+                        else get a v ++ repeat 0%N (n - length (get a v)))) (set h v true).
+Proof.
+  intros HI Hv Hnz. destruct (P_open nv s a h v HI Hv) as [HG Hg].
+  unfold resize. set (l := get a v) in *.
+  rewrite <- (app_nil_r (olist _)) in HG.
+  destruct (ensure_alloced_ok nv s a h v l _ (n + 1) [] HG Hg ltac:(lia))
+    as [s1 [id [d [He [HG1 [[Ev1 [Hd [Hr [Hal [Hamt [Hlen Hb]]]]]] _]]]]]].
+  rewrite He. cbn [bind]. rewrite (with_data_some s1 v id d _ Ev1 Hd).
+  destruct (Hb Hnz) as [rest Hbuf]. rewrite Hlen.
+  destruct (Nat.leb_spec n (length l)) as [Hle|Hgt].
+  - (* not growing: the fill loop stores at most the terminator that is already there *)
+    destruct (Nat.eq_dec n (length l)) as [Hn|Hn].
+    + subst n. replace (length l + 1 - length l) with 1 by lia. cbn [repeat].
+      assert (Hw1 : write_at (buf d) (length l) [0%N] = Some (buf d)).
+      { rewrite Hbuf. rewrite (write_at_app l (0%N :: rest) [0%N]) by (cbn; lia). reflexivity. }
+      rewrite Hw1. cbn [ov bind]. rewrite Hw1. cbn [ov bind].
+      eexists. split; [reflexivity|]. rewrite firstn_all.
+      eapply finish_write; eauto.
+    + replace (n + 1 - length l) with 0 by lia. cbn [repeat]. rewrite write_at_nil. cbn [ov bind].
+      assert (Hw : write_at (buf d) n [0%N] =
+                   Some (firstn n l ++ 0%N :: (skipn (S n) l ++ 0%N :: rest)))
+        by (rewrite Hbuf; apply write_zero; lia).
+      rewrite Hw. cbn [ov bind]. eexists. split; [reflexivity|].
+      eapply finish_write; eauto.
+      * exact (write_at_length _ _ _ _ Hw).
+      * rewrite firstn_length. lia.
+  - (* growing: zero fill from the old length to n inclusive *)
+    set (k := n - length l).
+    assert (Hk : n + 1 - length l = S k) by (unfold k; lia).
+    rewrite Hk.
+    assert (Hrest : S k <= length (0%N :: rest)).
+    { rewrite Hbuf in Hamt. rewrite app_length in Hamt. unfold k. lia. }
+    assert (Hw1 : write_at (buf d) (length l) (repeat 0%N (S k)) =
+                  Some (l ++ repeat 0%N (S k) ++ skipn (S k) (0%N :: rest))).
+    { rewrite Hbuf. rewrite (write_at_app l (0%N :: rest) (repeat 0%N (S k))); rewrite repeat_length; [reflexivity|exact Hrest]. }
+    rewrite Hw1. cbn [ov bind].
+    set (rest' := skipn (S k) (0%N :: rest)) in *.
+    assert (Hshape : l ++ repeat 0%N (S k) ++ rest' = (l ++ repeat 0%N k) ++ 0%N :: rest').
+    { rewrite <- app_assoc. f_equal. replace (S k) with (k + 1) by lia.
+      rewrite repeat_app. cbn [repeat]. rewrite <- app_assoc. reflexivity. }
+    assert (Hw2 : write_at (l ++ repeat 0%N (S k) ++ rest') n [0%N] =
+                  Some ((l ++ repeat 0%N k) ++ 0%N :: rest')).
+    { rewrite Hshape.
+      replace n with (length (l ++ repeat 0%N k)) at 1 by (rewrite app_length, repeat_length; unfold k; lia).
+      rewrite (write_at_app (l ++ repeat 0%N k) (0%N :: rest') [0%N]) by (cbn; lia). reflexivity. }
+    rewrite Hw2. cbn [ov bind]. eexists. split; [reflexivity|].
+    eapply finish_write; eauto.
+    + rewrite <- Hshape. exact (write_at_length _ _ _ _ Hw1).
+    + rewrite app_length, repeat_length. unfold k. lia.
+Qed.
+
+Lemma reserve_ok nv s a h v n :
+  Inv nv s a h -> (v < N.of_nat nv)%N -> nz (get a v) ->
+  exists s', reserve s v n = Ok s' /\ Inv nv s' a (set h v true).
+Proof.
+  intros HI Hv Hnz. destruct (P_open nv s a h v HI Hv) as [HG Hg].
+  unfold reserve. rewrite <- (app_nil_r (olist _)) in HG.
+  destruct (ensure_alloced_ok nv s a h v (get a v) _ (n + 1) [] HG Hg ltac:(lia))
+    as [s1 [id [d [He [HG1 [[Ev1 [Hd [Hr [Hal [Hamt [Hlen Hb]]]]]] _]]]]]].
+  exists s1. split; [exact He|]. apply Inv_a_back with (v := v).
+  apply P_close; [rewrite Ev1; exact HG1|exact Hv|]. rewrite Ev1. cbn [vgood].
+  exists d. split; [exact Hd|]. destruct (Hb Hnz) as [rest Hbuf].
+  split; [exists rest; auto|exact Hlen].
+Qed.
+
+Lemma assign_n_ok nv s a h v bytes :
+  Inv nv s a h -> (v < N.of_nat nv)%N ->
+  exists s', assign_n s v bytes = Ok s' /\ Inv nv s' (set a v bytes) (set h v true).
+Proof.
+  intros HI Hv. destruct (P_open nv s a h v HI Hv) as [HG Hg].
+  unfold assign_n. rewrite <- (app_nil_r (olist _)) in HG.
+  destruct (ensure_alloced_ok nv s a h v (get a v) _ (length bytes + 1) [] HG Hg ltac:(lia))
+    as [s1 [id [d [He [HG1 [[Ev1 [Hd [Hr [Hal [Hamt [Hlen Hb]]]]]] _]]]]]].
+  rewrite He. cbn [bind]. rewrite (with_data_some s1 v id d _ Ev1 Hd).
+  assert (Hw : write_at (buf d) 0 (bytes ++ [0%N]) =
+               Some ((bytes ++ [0%N]) ++ skipn (length (bytes ++ [0%N])) (buf d))).
+  { apply write_at_0. rewrite app_length. cbn. lia. }
+  rewrite Hw. cbn [ov bind]. eexists. split; [reflexivity|].
+  eapply finish_write with (rest' := skipn (length (bytes ++ [0%N])) (buf d)); eauto.
+  - exact (write_at_length _ _ _ _ Hw).
+  - rewrite <- app_assoc. reflexivity.
 Qed.
 
 (* ---- pure observations ------------------------------------------------------------------- *)
 
-Lemma get_char_ok nv s a v i :
-  Inv nv s a -> (v < N.of_nat nv)%N -> get_char s v i = Ok (nth i (get a v) 0%N).
+Lemma get_char_ok nv s a h v i :
+  Inv nv s a h -> (v < N.of_nat nv)%N -> get_char s v i = Ok (nth i (get a v) 0%N).
 Proof.
-  intros HI Hv. assert (Hg : vgood s (get (vars s) v) (get a v)) by (apply (g_vars _ _ _ _ _ HI); auto).
+  intros HI Hv.
+  assert (Hg : vgood s (get (vars s) v) (get a v) (get h v)) by (apply (g_vars _ _ _ _ _ _ HI); auto).
   unfold get_char. destruct (get (vars s) v) as [id|].
-  - cbn [vgood] in Hg. destruct Hg as [d [Hd [[rest [Hb [Hn Hal]]] Hlen]]].
+  - cbn [vgood] in Hg. destruct Hg as [d [Hd [[rest [Hb Hal]] Hlen]]].
     unfold deref. rewrite Hd. cbn [bind]. rewrite Hlen.
     destruct (Nat.leb_spec (length (get a v)) i) as [Hge|Hlt].
     + now rewrite nth_overflow.
     + rewrite Hb. rewrite nth_error_text by exact Hlt. reflexivity.
-  - cbn [vgood] in Hg. rewrite Hg. now destruct i.
+  - cbn [vgood] in Hg. destruct Hg as [Hl _]. rewrite Hl. now destruct i.
 Qed.
 
-Lemma c_str_ok nv s a v :
-  Inv nv s a -> (v < N.of_nat nv)%N -> c_str_of s v = Ok (get a v) /\ clit (get a v) = get a v.
+Lemma c_str_ok nv s a h v :
+  Inv nv s a h -> (v < N.of_nat nv)%N -> c_str_of s v = Ok (clit (get a v)).
 Proof.
-  intros HI Hv. assert (Hg : vgood s (get (vars s) v) (get a v)) by (apply (g_vars _ _ _ _ _ HI); auto).
-  split; [now apply c_str_of_good|]. apply clit_nz. eapply vgood_nz; eauto.
+  intros HI Hv. eapply c_str_of_good. apply (g_vars _ _ _ _ _ _ HI); auto.
 Qed.
 
-Lemma observe_ok nv s a : Inv nv s a -> observe nv s = Ok (spec_observe nv a).
+Lemma observe_ok nv s a h : Inv nv s a h -> observe nv s = Ok (spec_observe nv a).
 Proof.
   intro HI. unfold observe, spec_observe.
   assert (H : forall vs, (forall u, In u vs -> u < nv) ->
@@ -397,43 +580,47 @@ Proof.
   { induction vs as [|u r IH]; intro Hin; [reflexivity|].
     cbn [observe_vars map].
     assert (Hu : (N.of_nat u < N.of_nat nv)%N) by (specialize (Hin u (or_introl eq_refl)); lia).
-    destruct (c_str_ok nv s a _ HI Hu) as [Hc Hl]. rewrite Hc. cbn [bind].
-    assert (Hg : vgood s (get (vars s) (N.of_nat u)) (get a (N.of_nat u))) by (apply (g_vars _ _ _ _ _ HI); auto).
-    rewrite (length_of_good _ _ _ Hg). cbn [bind].
-    rewrite IH by (intros x Hx; apply Hin; now right). cbn [bind]. rewrite Hl. reflexivity. }
+    rewrite (c_str_ok nv s a h _ HI Hu). cbn [bind].
+    assert (Hg : vgood s (get (vars s) (N.of_nat u)) (get a (N.of_nat u)) (get h (N.of_nat u)))
+      by (apply (g_vars _ _ _ _ _ _ HI); auto).
+    rewrite (length_of_good _ _ _ _ Hg). cbn [bind].
+    rewrite IH by (intros x Hx; apply Hin; now right). reflexivity. }
   apply H. intros u Hu. apply in_seq in Hu. lia.
 Qed.
 
 (* ---- the step ---------------------------------------------------------------------------- *)
 
-Lemma step_sim nv s a o :
-  Inv nv s a -> pre nv a o = true ->
-  exists s', step s o = Ok (s', snd (spec_step a o)) /\ Inv nv s' (fst (spec_step a o)).
+Lemma step_sim nv s a h o :
+  Inv nv s a h -> pre nv a h o = true ->
+  exists s', step s o = Ok (s', snd (spec_step a o)) /\
+             Inv nv s' (fst (spec_step a o)) (has_step a h o).
 Proof.
   intros HI Hpre.
-  assert (Hnores : forall (x : outcome st) a', (exists s', x = Ok s' /\ Inv nv s' a') ->
-            exists s', nores x = Ok (s', RNone) /\ Inv nv s' a').
-  { intros x a' [s' [-> H]]. exists s'. split; [reflexivity|exact H]. }
-  destruct o; cbn [pre] in Hpre; cbn [step spec_step fst snd];
+  assert (Hnores : forall (x : outcome st) a' h', (exists s', x = Ok s' /\ Inv nv s' a' h') ->
+            exists s', nores x = Ok (s', RNone) /\ Inv nv s' a' h').
+  { intros x a' h' [s' [-> H]]. exists s'. split; [reflexivity|exact H]. }
+  destruct o; cbn [pre] in Hpre; cbn [step spec_step has_step fst snd];
     repeat (apply andb_prop in Hpre; destruct Hpre as [Hpre ?]);
     repeat match goal with H : inr _ _ = true |- _ => apply inr_lt in H end;
-    repeat match goal with H : negb _ = true |- _ => apply negb_true_iff in H end;
-    try discriminate.
-  - apply Hnores. apply set_text_ok; auto. apply nz_clit.
+    repeat match goal with H : nonul _ = true |- _ => apply nonul_nz in H end;
+    repeat match goal with H : negb _ = true |- _ => apply negb_true_iff in H end.
+  - apply Hnores. apply set_text_ok; auto.
   - apply Hnores. apply assign_str_ok; auto.
   - apply Hnores. apply ctor_copy_ok; auto.
   - apply Hnores. apply assign_cstr_ok; auto.
   - apply Hnores. apply append_lit_ok; auto.
   - apply Hnores. apply append_char_ok; auto.
-  - apply Hnores. apply append_str_ok; auto. now apply N.eqb_neq.
-  - apply Hnores. apply set_char_ok; auto; [now apply isnil_false|now apply N.eqb_neq].
-  - rewrite (get_char_ok nv s a v i HI) by auto. exists s. split; [reflexivity|exact HI].
+  - apply Hnores. apply append_str_ok; auto.
+  - apply Hnores. apply set_char_ok; auto. now apply N.eqb_neq.
+  - rewrite (get_char_ok nv s a h v i HI) by auto. exists s. split; [reflexivity|exact HI].
   - apply Hnores. apply cap_length_ok; auto.
   - apply Hnores. apply minus_ok; auto.
   - apply Hnores. apply clear_ok; auto.
-  - apply Hnores. apply map_case_ok; auto; [exact lower_nz|now apply isnil_false].
-  - apply Hnores. apply map_case_ok; auto; [exact upper_nz|now apply isnil_false].
-  - destruct (c_str_ok nv s a v HI) as [Hc1 Hl1]; [auto|].
-    destruct (c_str_ok nv s a w HI) as [Hc2 Hl2]; [auto|].
-    rewrite Hc1, Hc2. cbn [bind]. rewrite Hl1, Hl2. exists s. split; [reflexivity|exact HI].
+  - apply Hnores. apply map_case_ok; auto.
+  - apply Hnores. apply map_case_ok; auto.
+  - rewrite (c_str_ok nv s a h v HI) by auto. rewrite (c_str_ok nv s a h w HI) by auto.
+    cbn [bind]. exists s. split; [reflexivity|exact HI].
+  - apply Hnores. apply resize_ok; auto.
+  - apply Hnores. apply reserve_ok; auto.
+  - apply Hnores. apply assign_n_ok; auto.
 Qed.
